@@ -208,12 +208,18 @@ where
     } else if let Some(buf) = src.get(..BAM_MAGIC_NUMBER.len()) {
         if buf == BAM_MAGIC_NUMBER {
             return Ok(Format::Bam);
-        } else if buf == CRAM_MAGIC_NUMBER {
+        } else if buf == CRAM_MAGIC_NUMBER && !src.get(buf.len()).is_some_and(is_sam_text) {
             return Ok(Format::Cram);
         }
     }
 
     Ok(Format::Sam)
+}
+
+// The CRAM magic number is followed by the (binary) major format version. In SAM, a leading "CRAM"
+// is the start of a read name and is followed by another read name character or a tab.
+fn is_sam_text(b: &u8) -> bool {
+    matches!(b, b'\t' | b'!'..=b'~')
 }
 
 #[cfg(test)]
